@@ -296,8 +296,12 @@ Definition step_top (s : state) (f : frame) (rest : list frame) (arg : nat) : re
       else if r_stop x then Some (with_rr s r (set_mu x true), FUnlock r :: rest, [])
       else Some (with_rr s r (set_mu x true), FCleanStart r :: rest, [])
   | FCleanStart r =>
+      (* rerunner.go:386-390.  arg 1: the run gives up because r.ctx was cancelled while it held r.mu (a variant of
+         the write-then-read delay that selects on ctx.Done() returns here through the deferred unlock; the code
+         as it is sleeps the delay out and never takes this branch) *)
       let x := getr s r in
-      if r_clock x then None
+      if Nat.eqb arg 1 then (if r_cancel x then Some (with_rr s r (set_mu x false), rest, []) else None)
+      else if r_clock x then None
       else Some (with_rr s r (set_clock x true), FClean r (map snd (r_cache x)) :: rest, [])
   | FClean r ks =>
       let x := getr s r in
